@@ -1568,7 +1568,7 @@ EXTRA_NAMES = ["dp", "ck", "ik", "lk", "lun", "ios", "fname", "nl", "blk", "res"
                "zz", "q", "jj", "kk", "pp", "pq", "fp", "gp", "run", "impl_m", "impl_q", "pm", "qm", "dm", "gen",
                "fin", "fin2", "base_t", "parent", "rem1", "rem2", "orig", "other_mod", "iso_c_binding", "sm0",
                "sm1", "sm2", "sub_m", "bd1", "bdat", "ifc_a", "ifc_b", "ifc_c", "ent1", "ent2", "p1", "p2", "swap",
-               "ea", "eb", "ec", "ed", "ee", "ef", "self", "m"]
+               "ea", "eb", "ec", "ed", "ee", "ef", "self", "m", "kp", "np", "pv", "pi"] + ["w%d" % i for i in range(16)]
 ALL_NAMES = set(n.lower() for pool in (NUM_NAMES, INT_NAMES, LOG_NAMES, CHR_NAMES, ARR_NAMES, FUN_NAMES, SUB_NAMES,
                                        OBJ_NAMES, COMP_NAMES, TYPE_NAMES, MOD_NAMES, UNIT_NAMES, CONSTRUCT_NAMES,
                                        EXTRA_NAMES) for n in pool)
